@@ -40,6 +40,7 @@ type freePlan struct {
 }
 
 type freeEndpoint struct {
+	wsum    uint32 // checksum of everything written (keeps the instrumented read alive)
 	w       *freeWorld
 	idx     int
 	addr    netip.Addr
@@ -109,6 +110,14 @@ type freeSource struct{ ep *freeEndpoint }
 type freeSink struct{ ep *freeEndpoint }
 
 func (s *freeSink) WriteTo(buf []byte, addr netip.AddrPort) error {
+	// a sink reads the bytes it is given (sendto does): an ordinary, instrumented read of the whole
+	// packet, so that the detector sees anybody else writing into that memory at the same time. The
+	// hand-over to the simulated wire below stays outside the detector's view.
+	var sum uint32
+	for _, b := range buf {
+		sum += uint32(b)
+	}
+	atomic.AddUint32(&s.ep.wsum, sum)
 	s.ep.probeStore(buf)
 	return nil
 }
